@@ -74,7 +74,8 @@ def outcome_under(kind, base, options):
 def required_cells(tier):
     return (['agree:passed', 'agree:failed', 'agree:skipped', 'agree:disabled', 'style:auto', 'style:google',
              'style:freeform', 'exit:0', 'exit:1', 'leftover-pair:fail_reads_leftover', 'leftover-pair:pass_no_leftover',
-             'file-name:__main__.py', 'file-name:setup.py', 'conftest-fills-xdoctest_namespace', 'textfile:agree', 'textfile:__name__-in-a-later-example', 'textfile:after-a-failed-example:reads_previous'] +
+             'file-name:__main__.py', 'file-name:setup.py', 'conftest-fills-xdoctest_namespace', 'textfile:agree', 'textfile:__name__-in-a-later-example', 'textfile:after-a-failed-example:reads_previous',
+             'module-level-importorskip'] +
             ['options:' + (o or 'none') for o in set(OPTIONS)])
 
 
@@ -155,6 +156,11 @@ def check_module(ctx, idx, seed):
         else:
             path = os.path.join(work, 'setup.py')
         ctx.cell('file-name:' + os.path.basename(path))
+    module_asks_to_be_skipped = idx % 16 == 13
+    if module_asks_to_be_skipped:
+        # the module needs an optional dependency and says so the pytest way: importing it raises pytest's Skipped
+        om.src += '\nimport pytest\n_xv_dep = pytest.importorskip("xv_no_such_module_%d_zz")\n' % idx
+        ctx.cell('module-level-importorskip')
     with open(path, 'w') as f:
         f.write(om.src)
     if idx % 4 == 2:
@@ -176,6 +182,12 @@ def check_module(ctx, idx, seed):
     case = {'index': idx, 'case_seed': seed}
     ctx.evaluation()
     exp = {t['ident']: outcome_under(t['kind'], t['outcome'], options) for t in om.tests}
+    if module_asks_to_be_skipped:
+        # every doctest that gets as far as importing its module is skipped there (a directive that cannot be read is
+        # rejected before that)
+        for t in om.tests:
+            if exp[t['ident']] in ('passed', 'failed') and not t['kind'].startswith('fail_bad_directive'):
+                exp[t['ident']] = 'skipped'
     if len(set(exp.values())) >= 2:
         ctx.nontrivial((om.src, style, options))
 
@@ -192,6 +204,10 @@ def check_module(ctx, idx, seed):
         ctx.event('native_runs')
         ctx.event('pytest_runs')
         ctx.event('junit_testcases_read', len(pres))
+        if module_asks_to_be_skipped:
+            # (pytest's own collector for Python files imports the module too and lists the file itself as skipped: not
+            # an item of the plugin)
+            pres.pop(os.path.splitext(os.path.basename(path))[0], None)
         # identifiers
         n_ids = set(nres)
         p_ids = set(pres)
